@@ -170,7 +170,7 @@ func RunPipeline(seed int64, tier, driver, outDir string, n int, search bool, co
 		}
 	}
 	failSeen := map[string]bool{}
-	pushes, replies, syncs, reorders, drops, climuts, cuts := 0, 0, 0, 0, 0, 0, 0
+	pushes, replies, syncs, reorders, drops, climuts, cuts, windows, qchecks := 0, 0, 0, 0, 0, 0, 0, 0, 0
 	for i, run := range runs {
 		c := cases[i]
 		res.Cases++
@@ -180,6 +180,8 @@ func RunPipeline(seed int64, tier, driver, outDir string, n int, search bool, co
 		replies += run.Replies
 		syncs += run.Syncs
 		drops += run.SyncDrops
+		windows += run.SyncWindows
+		qchecks += run.QuiescentChecks
 		climuts += run.CliMuts
 		cuts += run.Cuts
 		reorders += run.Reorders
@@ -234,7 +236,7 @@ func RunPipeline(seed int64, tier, driver, outDir string, n int, search bool, co
 			res.Failures = append(res.Failures, core.FailRec{Prop: "C09", Msg: msg, File: file})
 		}
 	}
-	res.Extra = map[string]any{"pushes": pushes, "replies": replies, "full_syncs": syncs, "sync_answers_dropped": drops, "client_mutations_judged": climuts, "connection_cuts": cuts, "out_of_order_deliveries": reorders}
+	res.Extra = map[string]any{"pushes": pushes, "replies": replies, "full_syncs": syncs, "sync_answers_dropped": drops, "client_mutations_judged": climuts, "connection_cuts": cuts, "out_of_order_deliveries": reorders, "sync_answer_windows": windows, "quiescent_moments_judged": qchecks}
 	res.WallS = time.Since(t0).Seconds()
 	return res
 }
